@@ -7,15 +7,46 @@ y²·den = ζ·num otherwise.
 
 Proved here in full for the minimal backend's routine (`non_arkworks_sqrt_ratio_zeta`: Euler criterion through
 `pow_le_limbs` + the constant-time Tonelli–Shanks loop, by a loop invariant; the constants it uses are the
-generated ones).  For the table-driven routine of the arkworks backend see `sarkar_*` below.
+generated ones), and in full for the table-driven routine of the arkworks backend (`ark_contract`: with
+g = ζ^M of exact order 2^47, x5 = (num/den)^M = g^e; every one of the six table lookups hits, because the key is
+g^(m·2^39) for the invariant (e + t) ≡ 0 mod 2^b; the flag is the parity of e; the product squares to num/den or
+ζ·num/den).  In particular neither routine can panic.
 -/
 import Decaf.Lemmas.TonelliShanks
+import Decaf.Lemmas.Sarkar
 
 namespace C09
 open Model
 
 /-- the minimal backend's routine meets the contract, for every pair in Fq × Fq -/
 theorem min_contract : SRContract sqrtRatioMin := sqrtRatioMin_contract
+
+/-- the arkworks backend's table-driven routine meets the contract, for every pair in Fq × Fq; `total` says that
+no `HashMap` index in it can miss -/
+theorem ark_contract : SRContract sqrtRatioArk := sarkar_contract
+
+/-- the two routines return the same flag and roots of the same square, on every input -/
+theorem routines_agree {n d : ℕ} (hn : n < q) (hd : d < q) :
+    ∃ f y y', sqrtRatioArk n d = some (f, y) ∧ sqrtRatioMin n d = some (f, y') ∧ (y : Fq) ^ 2 * (d : Fq) = (y' : Fq) ^ 2 * (d : Fq) := by
+  obtain ⟨f, y, h1, _⟩ := ark_contract.total n d hn hd
+  obtain ⟨f', y', h2, _⟩ := min_contract.total n d hn hd
+  by_cases hn0 : n = 0
+  · subst hn0
+    obtain ⟨rfl, rfl⟩ := ark_contract.num_zero d f y hd h1
+    obtain ⟨rfl, rfl⟩ := min_contract.num_zero d f' y' hd h2
+    exact ⟨true, 0, 0, h1, h2, rfl⟩
+  by_cases hd0 : d = 0
+  · subst hd0
+    obtain ⟨rfl, rfl⟩ := ark_contract.den_zero n f y hn hn0 h1
+    obtain ⟨rfl, rfl⟩ := min_contract.den_zero n f' y' hn hn0 h2
+    exact ⟨false, 0, 0, h1, h2, rfl⟩
+  by_cases hsq : IsSquare ((n : Fq) / (d : Fq))
+  · obtain ⟨rfl, e1⟩ := ark_contract.square n d f y hn hd hn0 hd0 h1 hsq
+    obtain ⟨rfl, e2⟩ := min_contract.square n d f' y' hn hd hn0 hd0 h2 hsq
+    exact ⟨true, y, y', h1, h2, by rw [e1, e2]⟩
+  · obtain ⟨rfl, e1⟩ := ark_contract.nonsquare n d f y hn hd hn0 hd0 h1 hsq
+    obtain ⟨rfl, e2⟩ := min_contract.nonsquare n d f' y' hn hd hn0 hd0 h2 hsq
+    exact ⟨false, y, y', h1, h2, by rw [e1, e2]⟩
 
 /-- `pow_le_limbs` is exponentiation by the integer the limbs denote, for every limb list -/
 theorem pow_le_limbs_spec (m x : ℕ) (limbs : List ℕ) (h : ∀ l ∈ limbs, l < 2 ^ 64) :
